@@ -32,9 +32,9 @@ def exCfg : Cfg :=
 def exSt : St :=
   { fileArgs := [("a", [some "C", none]), ("b", [some "C"])]
     postNodes := [("C", ["a", "b"])]
-    disk := [⟨"/p/files/a.txt".toList, 5, .out⟩, ⟨"/p/files/sub".toList, 4096, .out⟩,
-             ⟨"/p/files/sub/b.txt".toList, 7, .out⟩, ⟨"/p/files/scratch".toList, 3, .out⟩,
-             ⟨"/p/tmp/t".toList, 2, .tmp 1⟩] }
+    disk := [⟨"/p/files/a.txt".toList, 5, .out, []⟩, ⟨"/p/files/sub".toList, 4096, .out, []⟩,
+             ⟨"/p/files/sub/b.txt".toList, 7, .out, []⟩, ⟨"/p/files/scratch".toList, 3, .out, []⟩,
+             ⟨"/p/tmp/t".toList, 2, .tmp 1, []⟩] }
 
 
 end Martian.Vdr
